@@ -499,7 +499,24 @@ fn run_ctx_ops(ctx: &mut cel_interpreter::Context, ops: &[Sx], i: &mut usize, ou
         let op = ops[*i].as_list().unwrap_or(&[]).to_vec();
         *i += 1;
         match op.first().and_then(|a| a.as_atom()) {
-            Some("def") => ctx.add_variable_from_value(name(&op[1]), sx_to_value(&op[2]).expect("bad value")),
+            Some("def") => {
+                // both host entry points define variables: `add_variable` (any Serialize) and
+                // `add_variable_from_value`; alternate between them so that each is exercised in
+                // every position of a history
+                let v = sx_to_value(&op[2]).expect("bad value");
+                match (&v, *i % 2) {
+                    (Value::Int(n), 0) => {
+                        let _ = ctx.add_variable(name(&op[1]), *n);
+                    }
+                    (Value::Bool(b), 0) => {
+                        let _ = ctx.add_variable(name(&op[1]), *b);
+                    }
+                    (Value::String(t), 0) => {
+                        let _ = ctx.add_variable(name(&op[1]), t.as_str());
+                    }
+                    _ => ctx.add_variable_from_value(name(&op[1]), v),
+                }
+            }
             Some("push") => {
                 let mut child = ctx.new_inner_scope();
                 run_ctx_ops(&mut child, ops, i, out);
